@@ -9,7 +9,7 @@ Base == [classes |-> {"A"}, methods |-> {"pt", "n"}, consts |-> {<<"int", 1, 1>>
          not |-> FALSE, boolConst |-> FALSE, ifexp |-> FALSE, aggs |-> {}, first |-> FALSE,
          index |-> FALSE, math |-> {}, colls |-> {<<"A", "bk1">>}, select |-> TRUE, where |-> TRUE,
          selectmany |-> FALSE, range |-> FALSE, rows |-> {"seq"}, topmid |-> {},
-         topwhere |-> FALSE, evwhere |-> FALSE, rootnames |-> {}, start |-> "top", boolAsNum |-> FALSE, mindone |-> 0, singles |-> {}, userfns |-> {}]
+         topwhere |-> FALSE, evwhere |-> FALSE, rootnames |-> {}, start |-> "top", boolAsNum |-> FALSE, mindone |-> 0, singles |-> {}, userfns |-> {}, enums |-> FALSE]
 
 \* C01 core: the LINQ operators and their compositions
 ProfCore == [Base EXCEPT !.classes = {"A", "T"}, !.methods = {"pt", "n", "trks", "vals"},
@@ -64,6 +64,13 @@ ProfCollZ == [ProfColl EXCEPT !.classes = {"A", "Z"}, !.colls = AllBanks({"Z"}) 
 AllFnIds == {UserFns[i].id : i \in DOMAIN UserFns}
 ProfUserFn == [Base EXCEPT !.methods = {"pt", "eta", "a", "b", "n", "m"}, !.consts = {<<"int", 2, 1>>}, !.select = FALSE, !.where = FALSE,
                  !.rows = {"seq"}, !.colls = {}, !.start = "perobj", !.userfns = AllFnIds, !.cmpops = {}]
+
+\* C10: the declared-signature space: object by value / pointer / double pointer, collection pointer,
+\* smart references with 1 and 2 extra dereferences, a declared tree type, an enum (output, comparison, argument)
+ProfTypes == [Base EXCEPT !.classes = {"A", "T", "R1", "R2"},
+                !.methods = {"pt", "q", "tv", "tpp", "trks", "link", "vals", "valsp", "tref", "trefref", "code", "color"},
+                !.consts = {<<"int", 1, 1>>}, !.binops = {"+"}, !.aggs = {"Count", "Sum"}, !.first = TRUE, !.index = TRUE,
+                !.select = TRUE, !.where = FALSE, !.rows = {"bool"}, !.colls = {}, !.start = "perobj", !.enums = TRUE]
 
 \* C04: partial operations (First, index, link dereference) under guards
 ProfFault == [Base EXCEPT !.methods = {"pt", "vals", "link"}, !.consts = {<<"int", 0, 1>>},
